@@ -349,30 +349,71 @@ impl P05 {
     }
 }
 
+/// a range pattern against a scrutinee of another kind: the value is not contained, so the arm must not match
+/// (source text, expected canonical value of the match expression)
+fn cross_kind_cases() -> Vec<(String, String)> {
+    let scruts: &[(&str, &str)] = &[("int", "2"), ("float", "2.5"), ("str", "\"b\""), ("char", "'b'"), ("byte", "byte(98)"), ("bool", "true"), ("null", "null"), ("array", "[2]")];
+    let ranges: &[(&str, &str)] = &[("int", "1..3"), ("int", "1..=3"), ("str", "\"a\"..\"c\""), ("char", "'a'..'c'"), ("byte", "b'a'..=b'c'")];
+    let mut v = vec![];
+    for (sk, sv) in scruts {
+        for (rk, rv) in ranges {
+            // same kind and the numeric cross-kinds the operators define are the main tables' business
+            if sk == rk || (*rk == "int" && *sk == "float") {
+                continue;
+            }
+            v.push((format!("match {} {{ {} => 1, _ => 2 }}", sv, rv), "i2".to_string()));
+            v.push((format!("match {} {{ {} => 1 }}", sv, rv), "null".to_string()));
+            v.push((format!("match {} {{ {} | {} => 1, _ => 2 }}", sv, rv, rv), "i2".to_string()));
+        }
+    }
+    v
+}
+
 impl Property for P05 {
     fn id(&self) -> &'static str {
         "C05"
     }
     fn len(&self) -> u64 {
-        self.total()
+        self.total() + cross_kind_cases().len() as u64
     }
     fn describe(&self, idx: u64) -> Value {
+        if idx >= self.total() {
+            let c = &cross_kind_cases()[(idx - self.total()) as usize];
+            return json!({"table": "range pattern x scrutinee of another kind", "source": c.0, "expected": c.1});
+        }
         let (t, p) = self.prog(idx);
         json!({"table": t, "source": program_src(&p)})
     }
     fn run(&self, idx: u64) -> CaseOut {
+        if idx >= self.total() {
+            let (src, want) = cross_kind_cases()[(idx - self.total()) as usize].clone();
+            return match guarded(|| crate::subject::run_src(&src).outcome) {
+                Err(m) => CaseOut::viol("cross-kind panic", format!("panicked: {} on {}", one_line(&m, 160), src)),
+                Ok(crate::subject::Outcome::Value(g)) if g == want => CaseOut::pass("cross-kind no-match"),
+                // defect model of the known finding: the ordered comparison of the range test raises the
+                // operators' own kind error instead of answering "not contained"
+                Ok(crate::subject::Outcome::RtErr(m, _)) if m.starts_with("Invalid ") => CaseOut {
+                    class: "cross-kind range test raises a kind error".into(),
+                    verdict: known_or_violation("C05", "range-pattern-foreign-kind", format!("`{}` stops with '{}' instead of yielding {}", src, m, want)),
+                    states: 1,
+                    transitions: 1,
+                    traces: 1,
+                },
+                Ok(o) => CaseOut::viol("cross-kind wrong", format!("`{}` gave {:?}, expected {}", src, o, want)),
+            };
+        }
         let (t, p) = self.prog(idx);
         // parser-level rejections of default-arm placement are outside the harness grammar
         compare_program(&t, &p)
     }
     fn rule(&self) -> String {
-        "match: for each scrutinee kind (int -1..6, char a..e, byte a..e, strings, bool/other) every scrutinee value (through a recording probe, so single evaluation is observed) x one arm with every pattern alternative (every literal, every range lo..hi / lo..=hi over the literal values incl. empty and reversed, every 2-alternative and selected 3-alternative combination, _) x 3 body shapes x with/without a default arm; two-arm matches over a reduced alternative set; all 5x5 kind pairs for mixed-kind arms; if: all chains of 1-2 conditions over 8 truthiness representatives and of 3 conditions over {false,true,0} x every branch shape (empty, value, ends in let, expr-then-let, let-then-expr) x with/without else; loops: every nest of depth 1-3 of while/loop x label presence per level x one break/continue (plain, to each level's label, to an unknown label) at every position (before/after the inner loop at every level) guarded by every iteration index combination of a 3-wide counter grid; oracle: RefEval".into()
+        "match: for each scrutinee kind (int -1..6, char a..e, byte a..e, strings, bool/other) every scrutinee value (through a recording probe, so single evaluation is observed) x one arm with every pattern alternative (every literal, every range lo..hi / lo..=hi over the literal values incl. empty and reversed, every 2-alternative and selected 3-alternative combination, _) x 3 body shapes x with/without a default arm; two-arm matches over a reduced alternative set; all 5x5 kind pairs for mixed-kind arms; every range pattern kind x scrutinee of every other kind (8 kinds) with / without a default arm and as a repeated alternative: the arm must not match; if: all chains of 1-2 conditions over 8 truthiness representatives and of 3 conditions over {false,true,0} x every branch shape (empty, value, ends in let, expr-then-let, let-then-expr) x with/without else; loops: every nest of depth 1-3 of while/loop x label presence per level x one break/continue (plain, to each level's label, to an unknown label) at every position (before/after the inner loop at every level) guarded by every iteration index combination of a 3-wide counter grid; oracle: RefEval".into()
     }
     fn bounds(&self) -> Value {
         json!({"match_one_arm": self.n_m1, "match_two_arms": self.n_m2, "mixed_kind_pairs": self.n_mixed, "if_chains": self.n_if, "loop_nests": self.loops.len(), "tier": self.tier.name()})
     }
     fn assumptions(&self) -> Vec<String> {
-        vec!["RefEval is the trusted reference; a range pattern against a scrutinee of another kind and byte/int pattern equality are counted as unspecified".into(),
+        vec!["RefEval is the trusted reference; byte/int pattern equality is counted as unspecified; a range pattern against a scrutinee of another kind has its own table (known finding range-pattern-foreign-kind)".into(),
              "negative integer patterns are not expressible in the grammar and are not generated".into()]
     }
 }
